@@ -32,6 +32,7 @@ WORDS_NONASCII = ['Straße', 'naïve', 'Übung', 'café',
                   'äöü', '¿qué', '£']
 WORDS_BEYOND_LATIN1 = ['日本', '€', 'Жук',
                        'αβ', '—']
+WORDS_HASH = ['#1', '#42', '#7', '#1234', '#', '%%', '%%x', '#BOT', '##500']
 WORDS_UNISPACE = ['20\u00a0000', 'x\u3000y', 'a\u2009b', '\u00a0']
 WORDS_PAREN = ['(', ')', '[', ']', '{', '}', 'a(b)c', '-LRB-', '-RRB-',
                'f(x)', '((']
